@@ -292,6 +292,11 @@ func runPlan(bin string, p *plan.Plan, dir string, tag string, dump bool) (rec *
 	if p.Build == "race" {
 		tries = 8
 	}
+	if nPub := countPublish(p); nPub >= 1 && len(p.Park) > 0 && p.Build != "race" {
+		// reloads while the loader is parked: its select statement may find a configuration
+		// and a lookup ready at once, and the Go runtime picks one at random
+		tries = 6
+	}
 	for i := 0; i < tries; i++ {
 		rec, died, stderr = runPlanOnce(bin, p, dir, tag, dump)
 		if died || (rec != nil && len(rec.Violations) > 0) {
@@ -299,6 +304,16 @@ func runPlan(bin string, p *plan.Plan, dir string, tag string, dump bool) (rec *
 		}
 	}
 	return
+}
+
+func countPublish(p *plan.Plan) int {
+	n := 0
+	for _, c := range p.Scen.Ctl {
+		if c.Kind == "publish" {
+			n++
+		}
+	}
+	return n
 }
 
 func runPlanOnce(bin string, p *plan.Plan, dir string, tag string, dump bool) (rec *runRecord, died bool, stderr string) {
